@@ -28,6 +28,21 @@ JOBS = [
     dict(job=('specs.files', 'prepare_handlers', {}), props=['C20']),
     dict(job=('specs.files', 'size_limit', {}), props=['C20']),
     dict(job=('specs.files', 'holder_to_file', {}), props=['C20']),
+    # ---- asynchronous cassette (monitor invariant)
+    dict(job=('specs.async_cas', 'producer', {}), props=['C12']),
+    dict(job=('specs.async_cas', 'flusher', {}), props=['C12']),
+    dict(job=('specs.async_cas', 'recording_loop', {}), props=['C12']),
+    dict(job=('specs.async_cas', 'close', {}), props=['C12']),
+    dict(job=('specs.async_cas', 'async_recording_ops', {}), props=['C12']),
+    dict(job=('specs.async_cas', 'cassette_ops', {}), props=['C12']),
+    # ---- helper functions of the recorder proved against the contracts the wrapper units assume
+    dict(job=('specs.tr_helpers', 'extract', {}), props=['C03', 'C11', 'C18']),
+    dict(job=('specs.tr_helpers', 'post_metadata', {}), props=['C05', 'C18']),
+    # ---- comparison runner
+    dict(job=('specs.equalizer', 'run_comparison', {}), props=['C08', 'C13', 'C19']),
+    dict(job=('specs.equalizer', 'play_and_compare', {}), props=['C08', 'C19']),
+    dict(job=('specs.equalizer', 'within_worker', {'mode': 'dedicated'}), props=['C08', 'C13']),
+    dict(job=('specs.equalizer', 'within_worker', {'mode': 'inprocess'}), props=['C08']),
     # ---- key functions
     dict(job=('specs.keys', 'input_key', {}), props=['C06']),
     dict(job=('specs.keys', 'output_key', {}), props=['C03', 'C06']),
@@ -48,6 +63,12 @@ CASES = {
 
 def extra_for(prop, tier, seed):
     out = []
+    if prop == 'C08':
+        from specs import equalizer
+        out.append(equalizer.lemmas)
+    if prop == 'C12':
+        from specs import async_cas
+        out.append(async_cas.lemmas)
     if prop in ('C03', 'C06', 'C18', 'C05'):
         from specs import keys
         out.append(lambda: (lambda r: dict(r, results=[x for x in r['results'] if x['prop'] == prop]))(keys.lemmas()))
@@ -104,4 +125,25 @@ CLAIMS['C20'] = dict(text='Contracts of the real file handlers over a ghost file
                           '(strict comparison), base64 content within it, restore writes exactly the recorded bytes at the call path and nothing else, '
                           'serialize/deserialize round trip for every byte string including the placeholder text.',
                      note=TB + 'base64 and file-system behaviour assumed (A3, A4); the trip through recorder and cassette composes with C01/C07 (A1 for bytes).')
+CLAIMS['C12'] = dict(text='Monitor-invariant proof (requested = executed ++ inflight ++ buffer) on the real producer and flusher: buffer touched only under the '
+                          'lock, invariant at every release, no storage call under the lock, sequential loop invariant (each operation executed once, in order, '
+                          'failures not blocking later ones); closure contracts: every enqueued operation is exactly the corresponding call on the wrapped '
+                          'recording / cassette; final-flush and close-order contracts; lemma: after close everything requested was executed in order.',
+                     technique='contract-based deductive verification with a monitor invariant (Owicki-Gries with ghost state) on the real code; obligations discharged by z3',
+                     note=TB + 'Lock / Event / Thread semantics assumed (A11), single flusher thread, join not timing out, no enqueue concurrent with or after close.')
+CLAIMS['C08'] = dict(text='Generator contract of the real run_comparison (loop invariant: ids of everything yielded = ids consumed, in order; exactly one, '
+                          'correctly labelled comparison per id; any ordinary failure becomes a framework-failure verdict for that id); contract of the worker body '
+                          '(never raises an ordinary exception, one player call, verdict = comparator result); rely/guarantee proof of the parent side of the '
+                          'dedicated-process protocol with ghost message tags (token invariant while awaiting, class invariant re-established on every exit, '
+                          'returned result carries this recording\'s tag) plus stability lemmas for every worker step.',
+                     technique='contract-based deductive verification with loop invariants, ghost message tags and a rely/guarantee token invariant on the real code; z3',
+                     note=TB + 'multiprocessing / os / time semantics assumed (A12, A15); consumers use next/close only; real scheduling enters only through these contracts.')
+CLAIMS['C13'] = dict(text='Safety parts discharged on the real code: recycle-age invariant (1 <= age <= rate at every return), every wait is a blocking get bounded by one '
+                          'second and the timeout exit happens only after the configured time, a timed-out or dead worker is killed if alive and always forgotten so '
+                          'that the next dispatch creates a fresh one, a recycled worker is signalled before it is joined, the terminate event is set and the queues '
+                          'closed at every exit of the run (exhausted, closed by the consumer, interrupted).',
+                     technique='contract-based deductive verification (class invariant, loop invariant, ghost worker state) on the real code; z3',
+                     note=TB + 'NOT decided here (assumed, OS facts): a signalled idle worker really exits, SIGKILL delivery (os.kill failing is tolerated by the code and '
+                          'leaves a possibly live worker: stated), zombies, wall-clock accuracy, finalisation of a generator that is dropped without close(). '
+                          'Termination of the outer loop follows from the finite id sequence; the await loop from the monotone clock (A13).')
 NOT_APPLICABLE = {}
